@@ -870,6 +870,13 @@ class Engine:
             return None
         segs = c.split('::')
         meth = segs[-1]
+        mi = re.search(r'<impl ([^<>]+)>::(\w+)$', callee)
+        if mi:
+            ty = mi.group(1).split('::')[-1].strip()
+            for f in self.by_method.get(meth, []):
+                if f.impl_span and '{closure' not in f.name:
+                    h = self.impl_header(f.impl_span)
+                    if h and h[0] is None and h[1] == ty: return f
         if len(segs) >= 2:
             ty = segs[-2]
             for f in self.by_method.get(meth, []):
